@@ -152,7 +152,8 @@ def frag(spec):
             continue
         used.append(key)
         numbers = [r["src"][2] for r in win]
-        entries.append({"id": CHAIN_IDS[c], "residues": win, "numbers": numbers})
+        entries.append({"id": CHAIN_IDS[c], "residues": win, "numbers": numbers,
+                        "icodes": [r.get("icode", "") for r in win]})
         for w in wat:
             if not any(np.allclose(w["atoms"][0][1], w2["atoms"][0][1]) for w2 in allw):
                 allw.append(w)
